@@ -421,6 +421,8 @@ class XPathToken(Token[ta.XPathTokenType]):
                 return cls(value)
             elif isinstance(value, UntypedAtomic):
                 try:
+                    if hasattr(cls, 'make'):
+                        return cls.make(value)
                     return cls(value)
                 except (TypeError, ValueError):
                     pass
